@@ -26,9 +26,12 @@ def replay_file(prop, path):
     with open(path) as f:
         data = json.load(f)
     case = data['case'] if isinstance(data, dict) and 'case' in data and 'property' in data else data
+    from . import findings
     try:
         prop.run_case(case)
     except Violation as v:
+        if v.finding is not None and not findings.is_open(prop.ID, v.finding):
+            v.finding = None
         return v
     return None
 
